@@ -51,11 +51,23 @@ def inv_query(mem, limit, j):
                   z3.ULE(pres(mem, j), 1), z3.Implies(z3.And(j != 0, z3.UGT(j, limit)), pres(mem, j) == 0))
 
 
-def check_apm(ctx, op, L):
+def invariant_any_limit(mem):
+    """what every history guarantees when the limit itself may change between calls (the table outlives a sandbox
+    incarnation; a re-created sandbox may be smaller): key 0 is present, presence flags are 0/1 - the cursor and the
+    tokens of still-living owners may lie above the current limit"""
+    return z3.And(pres(mem, BV(0, 8)) == 1, *[z3.ULE(z3.Select(mem, BV(M + j, 64)), 1) for j in range(256)])
+
+
+def check_apm(ctx, op, L, shrunk=False):
     eng = ctx.eng
     mem0 = eng.initial_memory()
     limit = ctx.sym("limit", 8)
-    ctx.assume(z3.UGE(limit, 1), z3.ULE(limit, L), invariant(mem0, limit))
+    if shrunk:
+        ctx.assume(z3.UGE(limit, 1), z3.ULE(limit, L), invariant_any_limit(mem0), z3.ULE(cnt(mem0), 2 * L))
+        for jj in range(2 * L + 1, 256):
+            ctx.assume(z3.Select(mem0, BV(M + jj, 64)) == 0)     # bound: earlier limits were at most 2L
+    else:
+        ctx.assume(z3.UGE(limit, 1), z3.ULE(limit, L), invariant(mem0, limit))
     j = ctx.sym("j", 8)
     # layout self-check of the model
     sz = ctx.run("k_apm_sizeof", [])
@@ -72,7 +84,8 @@ def check_apm(ctx, op, L):
                             "issued token is non-zero, within the limit, was unused, and now maps to the registered pointer")
                 ctx.require(q, z3.Implies(j != tok, z3.And(pres(q.mem, j) == pres(mem0, j), z3.Implies(pres(mem0, j) == 1, val(q.mem, j) == val(mem0, j)))),
                             "no other entry of the table changes")
-                ctx.require(q, inv_query(q.mem, limit, j), "the table invariant is preserved")
+                if not shrunk:
+                    ctx.require(q, inv_query(q.mem, limit, j), "the table invariant is preserved")
             elif q.status == "abort":
                 ctx.require(q, z3.Not(free), "registration aborts only when every token up to the limit is in use")
         ctx.only(paths, "ret", "abort")
@@ -347,6 +360,9 @@ def jobs(tier, seed):
     for op in ("get", "lk"):
         out.append(Job("C15_apm_cfg_noexc_" + op, src, [dict(name="table %s limit<=6, RLBOX_USE_EXCEPTIONS + -fno-exceptions" % op, fn=check_apm, kw=dict(op=op, L=6), unwind=600)],
                        flags=flags + ["-DRLBOX_USE_EXCEPTIONS"], native=False, max_paths=200000))
+    # the limit may shrink between calls (same sandbox object re-created with a smaller memory while owners live on)
+    out.append(Job("C15_apm_shrunk", src, [dict(name="table get after the limit shrank (limit<=%d, earlier limit<=%d)" % (L // 2, L), fn=check_apm,
+                                                kw=dict(op="get", L=L // 2, shrunk=True), unwind=600)], flags=flags, native=False, max_paths=200000))
     out.append(Job("C15_apm_ctor", src, [dict(name="table constructor", fn=check_ctor, unwind=600)], flags=flags, native=False))
     depth = 3 if tier == "quick" else 4
     osrc = '#include "C15_owner.inc"\n'
